@@ -128,6 +128,7 @@ def finish(rep, analysed, level_text, explanation, trusted_base):
             "exhaustive": True,
             "infos": rep.infos[:40],
             "not_evaluated": rep.not_evaluated,
+            "selftest": getattr(rep, "selftest", None),
             "known_findings": [v["key"] for v in suppressed],
             "violation_keys": [v["key"] for v in fresh],
         },
